@@ -40,6 +40,11 @@ class HarnessError(Exception):
     """The harness itself is inconsistent (exit 2, never a VIOLATION)."""
 
 
+class RunawayExecution(Exception):
+    """One execution asked the scripted generator for more answers than any terminating run of a bounded instance
+    needs (an unbounded redraw / retry loop): observed as 'does not terminate'."""
+
+
 def bind_repo():
     """Make sure the library under test is the working tree of REPO."""
     src = os.path.join(REPO, "src")
@@ -111,21 +116,32 @@ def _worker_init():
 
 def run_limited(fn, args, timeout):
     """Run fn(*args) under an alarm; returns ("ok", value) | ("timeout", None) |
-    ("memory", None) | ("exc", repr)."""
+    ("memory", None) | ("exc", repr).  Nests inside the per-case alarm: the enclosing deadline is restored
+    afterwards (and fires at once if it has passed meanwhile)."""
     signal.signal(signal.SIGALRM, _alarm)
-    signal.setitimer(signal.ITIMER_REAL, timeout)
+    outer = signal.getitimer(signal.ITIMER_REAL)[0]
+    t0 = time.time()
+    outer_first = 0 < outer <= timeout
+    signal.setitimer(signal.ITIMER_REAL, outer if outer_first else timeout)
     try:
         return ("ok", fn(*args))
     except CaseTimeout:
+        if outer_first:
+            raise  # the enclosing case deadline, not this call's limit
         return ("timeout", None)
     except MemoryError:
         return ("memory", None)
     except RecursionError as e:
         return ("exc", f"RecursionError({e})")
+    except RunawayExecution:
+        return ("timeout", None)
     except Exception as e:  # noqa
         return ("exc", f"{type(e).__name__}({e})")
     finally:
-        signal.setitimer(signal.ITIMER_REAL, 0)
+        if outer > 0:
+            signal.setitimer(signal.ITIMER_REAL, max(0.01, outer - (time.time() - t0)))
+        else:
+            signal.setitimer(signal.ITIMER_REAL, 0)
 
 
 def _eval_wrapper(arg):
